@@ -62,6 +62,10 @@ class CallSite:
                     return True
         return False
 
+    def is_or_polls(self, *names):
+        """like is_, and also true for the poll site of the coroutine of `async fn name`"""
+        return self.is_(*names) or self.is_(*[n + "::{closure#0}" for n in names])
+
     def where(self):
         return "%s:%s (%s bb%d)" % (self.body.file_of(self.bb), self.line, self.body.key, self.bb)
 
